@@ -183,8 +183,7 @@ def canon_result(opname, subname, r, maxalloc=0):
     if r.name == "abort" or maxalloc >= GIB:
         return T("panic", [b"alloc"])
     if r.name == "panic":
-        m = r.args[0]
-        return T("panic", [b"alloc"]) if (m == b"alloc" or b"capacity overflow" in m) and False else T("panic", [])
+        return T("panic", [b"alloc"]) if r.args and r.args[0] == b"alloc" else T("panic", [])
     if r.name == "err":
         return r
     if r.name != "ok":
